@@ -1,10 +1,10 @@
 SPECIFICATION Spec
 CONSTANTS
-  Keys <- KeysAT
-  MsgRs <- MsgsAT
+  Keys <- KeysA
+  MsgRs <- MsgsA
   Modes <- ModesAgg
   Depth = 1
-  AggN = 3
+  AggN = 4
   Emit = TRUE
 INVARIANTS TypeOK Complete Exact NoIdentityAccepted Separated AggExact AggRefusal MultiExact EmitVec
 CHECK_DEADLOCK FALSE
